@@ -413,6 +413,11 @@ def gen_programs(depth, counter):
         out.append([('try', b, picks[0])])
         out.append([('loop', b)])
     out.append([('def', picks[0])])
+    if depth == 1:
+        # empty bodies and clauses (written but empty is not the same as not written)
+        e, b = [], picks[0]
+        out += [[('if', None, e, None)], [('if', None, b, e)], [('if', None, e, b)], [('if', None, e, e)], [('if', [('s', 1)], e, None)],
+                [('try', e, None)], [('try', b, e)], [('try', e, b)], [('try', e, e)], [('loop', e)], [('def', e)]]
     return out
 
 
